@@ -130,10 +130,30 @@ def kf12(spec, problems):
     return "KF-12"
 
 
+def kf15_names(spec):
+    """Upper-case names of flattened ranks (and their partition levels) all of whose members
+    are ranks of the Einsum's OUTPUT, in a spec compiled with architecture/bindings/format:
+    the output constructor's explicit shape=[...] names the flattened rank as if it were an
+    extent variable."""
+    out = set()
+    if not (spec.extra or "").strip():
+        return out
+    for e in spec.exprs:
+        ps = (spec.partitioning or {}).get(e.out.name) or {}
+        for k in ps:
+            if k.startswith("("):
+                ms = [x.strip() for x in k.strip("()").split(",")]
+                if all(m in spec.decl[e.out.name] for m in ms):
+                    out.add("".join(ms))
+    return out
+
+
 def name_kf(spec, name):
     """Which known finding (if any) explains an unbound name."""
     if name in kf12_names(spec):
         return "KF-12"
+    if name in kf15_names(spec):
+        return "KF-15"
     if kf5_unbound_level_size(spec, name):
         return "KF-5"
     if kf7_unbound_offset(spec, name):
